@@ -222,7 +222,13 @@ pub fn c03(r: &mut Rng, tier: &str) -> Vec<Case> {
             let mut c = Case::new(format!("{}/self{}", tagof(page, op), j));
             c.key = tagof(page, op);
             c.push(sbox(s), P_NONE);
-            c.push(Cmd::X, Proj { pc: true, sp: true, ..NONE });
+            // a transfer only transfers: it must not halt or otherwise change how the next steps run;
+            // an interrupt arriving afterwards pushes the address control has reached
+            let pj = Proj { pc: true, sp: true, ctl: true, ..NONE };
+            c.push(Cmd::X, pj);
+            c.push(Cmd::N, P_NONE);
+            c.push(Cmd::X, pj);
+            c.push(Cmd::D, p_mem());
             cases.push(c);
         }
     }
@@ -333,6 +339,7 @@ pub fn c05(r: &mut Rng, tier: &str) -> Vec<Case> {
         for k in 0..n {
             let mut s = state_for(r, page, op);
             s.dbg = [k % 2 == 0, k % 4 == 3, false, false];
+            s.stale = k % 3 == 0;
             if k % 4 == 2 {
                 alias_pc(r, &mut s, page, op);
             }
@@ -594,6 +601,39 @@ pub fn c07(r: &mut Rng, tier: &str) -> Vec<Case> {
                 cases.push(c);
             }
         }
+    }
+    // (f) block transfers used as fills / copies running across a ROM window (lengths 1..600)
+    let nf = if quick(tier) { 240 } else { 6000 };
+    for k in 0..nf {
+        let mut s = rand_state(r);
+        s.seed = SEEDS[1 + k % 5];
+        let op = [0xB0u8, 0xB8][k % 2];
+        let bc: u16 = match k % 4 {
+            0 => 256 + (r.u16() & 0xFF),
+            1 => 300 + (r.u16() & 0xFF),
+            2 => 1 + (r.u16() & 0x3F),
+            _ => 0x100,
+        };
+        let hl = 0x2000u16.wrapping_add(r.u16() & 0x7FFF);
+        s.set_pair(H, hl);
+        s.set_pair(B, bc);
+        let de = if op == 0xB0 { hl.wrapping_add(1) } else { hl.wrapping_sub(1) };
+        s.set_pair(D, if k % 8 == 7 { hl.wrapping_add(0x1000) } else { de });
+        let fill = if k % 3 == 0 { 0x00 } else { r.u8() };
+        s.poke(hl, &[fill]);
+        // the window lies inside the destination block
+        let off = r.below(bc as u64) as u16;
+        let a = if op == 0xB0 { s.pair(D).wrapping_add(off) } else { s.pair(D).wrapping_sub(off) };
+        let len = r.below(40) as u16;
+        s.rom = Some(if op == 0xB0 { (a, a.wrapping_add(len)) } else { (a.wrapping_sub(len), a) });
+        s.pc = 0x0100;
+        s.poke(0x0100, &[0xED, op]);
+        let mut c = Case::new(format!("fill/{:02X}bc{}f{}", op, if bc < 256 { "s" } else { "l" }, (fill == 0) as u8));
+        c.key = format!("ED:{:02X}", op);
+        c.push(sbox(s), P_NONE);
+        c.push(Cmd::X, P_NONE);
+        c.push(Cmd::D, p_mem());
+        cases.push(c);
     }
     // (e) histories that declare the range again: stores, a new declaration covering what was RAM
     // (and uncovering what was ROM), more stores; bus level and through CPU stores
@@ -906,6 +946,11 @@ fn ctl_grid(r: &mut Rng, tier: &str, want_nmi: bool, want_halt: Option<bool>) ->
                                 }
                                 if (b as usize + rep) % 5 == 0 {
                                     s.sp = r.pick(&EDGE_ADDR);
+                                }
+                                if im == 2 && (b as usize + rep) % 3 == 0 {
+                                    // the stack runs into the mode-2 table entry being used
+                                    let t = (s.regs[I] as u16) << 8 | b as u16;
+                                    s.sp = t.wrapping_add(1 + ((b as u16 / 3) % 3));
                                 }
                                 // first handler instruction / instruction at pc
                                 let first = r.pick(&[0x00u8, 0xED, 0xFB, 0xF3, 0x76, 0x3E, 0xC9]);
@@ -1300,6 +1345,7 @@ pub fn c17(r: &mut Rng, tier: &str) -> Vec<Case> {
             for m in combos {
                 let mut t = s.clone();
                 t.dbg = [m & 1 != 0, m & 2 != 0, m & 4 != 0, m & 8 != 0];
+                t.stale = m % 3 == 1;
                 t.scur = if m % 2 == 0 { 0 } else { 12345 };
                 c.push(sbox(t), P_NONE);
                 let x = c.push(Cmd::X, Proj { dbg: 2, ..NONE });
@@ -1459,11 +1505,18 @@ pub fn c19(r: &mut Rng, tier: &str) -> Vec<Case> {
             // placements: disjoint / overlapping either way / wrapping / ROM
             let hl = v16(r);
             s.set_pair(H, hl);
-            let de = match k % 5 {
+            // disjoint, overlapping either way, the far end of one block touching the near end of the other
+            let de = match k % 11 {
                 0 => hl.wrapping_add(1),
                 1 => hl.wrapping_sub(1),
                 2 => hl.wrapping_add(bc / 2),
                 3 => 0xFFFFu16.wrapping_sub(r.u16() & 0x3F),
+                4 => hl.wrapping_sub(bc).wrapping_add(1),
+                5 => hl.wrapping_sub(bc),
+                6 => hl.wrapping_sub(bc).wrapping_add(2),
+                7 => hl.wrapping_add(bc).wrapping_sub(1),
+                8 => hl.wrapping_add(bc),
+                9 => hl.wrapping_sub(bc / 2),
                 _ => v16(r),
             };
             s.set_pair(D, de);
@@ -1471,6 +1524,16 @@ pub fn c19(r: &mut Rng, tier: &str) -> Vec<Case> {
                 let a = de.wrapping_add(r.u16() & 0x1F);
                 s.rom = Some((a, a.wrapping_add(r.u16() & 0xFF)));
             }
+            if !cmp && k % 22 == 0 {
+                // the clear-memory idiom over a few hundred bytes, a ROM window inside the block
+                let bc2 = 0x100 + (r.u16() & 0x7F);
+                s.set_pair(B, bc2);
+                s.poke(hl, &[0x00]);
+                s.seed = SEEDS[1 + k % 5];
+                let a = de.wrapping_add(r.u16() & 0x7F);
+                s.rom = Some((a, a.wrapping_add(r.u16() & 0x1F)));
+            }
+            let bc = s.pair(B);
             if cmp && k % 2 == 0 {
                 // plant a match somewhere in range
                 let off = r.below(bc.max(1) as u64) as u16;
